@@ -304,6 +304,8 @@ impl LazyUpdate {
         where
             F: FnOnce(&mut World) + 'static,
         {
+            #[cfg(specs_verif)]
+            crate::verif::yield_point(crate::verif::Site::LazyPush);
             self.queue
                 .0
                 .push(Box::new(f));
@@ -338,6 +340,8 @@ impl LazyUpdate {
         where
             F: FnOnce(&mut World) + 'static,
         {
+            #[cfg(specs_verif)]
+            crate::verif::yield_point(crate::verif::Site::LazyPush);
             self.queue.0.push(Box::new(f));
         }
     }
